@@ -350,6 +350,32 @@ func (n *Node) submitTask(t raft.Task) bool {
 	}
 }
 
+// submitTaskWithin is submitTask with a bound: a node whose raft goroutine
+// is blocked accepts nothing.
+func (n *Node) submitTaskWithin(t raft.Task, d time.Duration) bool {
+	select {
+	case <-n.gone:
+		return false
+	case <-n.r.Closed():
+		return false
+	case n.r.Tasks() <- t:
+		return true
+	case <-time.After(d):
+		return false
+	}
+}
+
+func (n *Node) isGone() bool {
+	select {
+	case <-n.gone:
+		return true
+	case <-n.r.Closed():
+		return true
+	default:
+		return false
+	}
+}
+
 func (n *Node) submitFSM(t raft.FSMTask) bool {
 	select {
 	case <-n.gone:
